@@ -1,5 +1,6 @@
 from vx.lift import Lift, Sub, Call, Members, Guard, DropStmt
 from vx.run import Unit
+from vx import census
 
 CIQ = "libs/pika/concurrency/include/pika/concurrency/detail/contiguous_index_queue.hpp"
 
@@ -131,3 +132,8 @@ META = {
     "assumptions": ["A-CLOSED: current_range is written only by reset/pop_left/pop_right/copy operations (census of the header)"],
     "not_decided": ["Michael's lock-free deque (deque.hpp) and moodycamel ConcurrentQueue: unverified dependencies"],
 }
+
+STATIC = [
+    # A-CLOSED: the atomic word current_range is accessed only in reset / the copy operations / pop_left / pop_right / empty
+    census.sites("contiguous_index_queue.current_range accesses", [CIQ], r"\bcurrent_range\b(?!;|\{)", 10),
+]
